@@ -1,5 +1,5 @@
 """Table from which tools/gen_manifest.py writes MANIFEST.json."""
-FIX_COMMITS = ["77a8511 (C20)", "5ffb491 (C06)", "c8070ac (C06)", "17c5c88 (C10)", "0f02627 (C12/C11)", "b090335 (C12)", "379af9d (C11)", "b049858 (C09/C19)", "04ee588 (C07)", "f98e878 (C07)"]
+FIX_COMMITS = ["77a8511 (C20)", "5ffb491 (C06)", "c8070ac (C06)", "17c5c88 (C10)", "0f02627 (C12/C11)", "b090335 (C12)", "379af9d (C11)", "b049858 (C09/C19)", "04ee588 (C07)", "f98e878 (C07)", "bda319f (C04)"]
 
 CHECKS = {
     "C20": {
@@ -116,6 +116,17 @@ CHECKS = {
                 "RAC arms use complementary, consistent masks (R07f).",
         "note": "Not decided: whole-sample shift equivariance (integer rounding), finiteness, peak position and fall-off, AVZ energy "
                 "proportionality. Trusted: domain summary tables.",
+    },
+    "C04": {
+        "technique": "static analysis: value-provenance (freshness) analysis of constructors and returns, sibling guard-list comparison, symbolic-length abstract interpretation",
+        "text": "Constructors store freshly built arrays (R04a); every return of copy/with_times/+/*// in every Signal subclass is a family "
+                "constructor call, an object from .copy() that only receives fresh values afterwards, or NotImplemented, and `self` is "
+                "returned only by in-place operators and by 0+signal (R04b: sufficient, with R04a, for 'no shared mutable state'); the five "
+                "FunctionSignal component lists are deep-copied (R04c); the three __add__ siblings share guard list and coercion (R04d); "
+                "with_times has the interp(left=0,right=0) / empty / re-evaluate shapes (R04e); the length domain proves len(values) == "
+                "len(times) on both constructor arms (R04f).",
+        "note": "Not decided: numerical equality of interpolation, resample, dtype effects. Trusted: numpy copy semantics (np.array copies, "
+                "arithmetic allocates), copy.deepcopy; enum members and callables may be shared.",
     },
 }
 
